@@ -83,7 +83,10 @@ def fld(name):
 EXC = {"ValueError": ".valueError", "IndexError": ".indexError", "TypeError": ".typeError",
        "OverflowError": ".overflowError"}
 
-BINOPS = {ast.Add: "pyAdd", ast.Sub: "pySub", ast.Mult: "pyMul", ast.FloorDiv: "pyFloorDiv", ast.Mod: "pyMod"}
+BINOPS = {ast.Add: "pyAdd", ast.Sub: "pySub", ast.Mult: "pyMul", ast.FloorDiv: "pyFloorDiv", ast.Mod: "pyMod",
+          ast.Pow: "pyPow"}
+# in a module that imports NumPy an operand may be an array: the broadcasting versions are emitted there
+NP_BINOPS = {ast.Add: "npAdd", ast.Sub: "npSub", ast.Mult: "npMul"}
 CMPOPS = {ast.Lt: "pyLt", ast.LtE: "pyLe", ast.Gt: "pyGt", ast.GtE: "pyGe", ast.Eq: "pyEq", ast.NotEq: "pyNe"}
 
 
@@ -127,6 +130,8 @@ class FunctionTranslator:
             return True                      # immutable
         if isinstance(node, ast.Call) and isinstance(node.func, ast.Name):
             if node.func.id in ("list", "str", "int", "len") or node.func.id in self.m.functions:
+                return True
+            if self.m.numpy.get(node.func.id) in ("zeros", "array", "ones", "where", "argsort"):
                 return True
         if isinstance(node, ast.Call) and isinstance(node.func, ast.Attribute) and node.func.attr in ("join", "zfill", "index"):
             return True                      # str / int results are immutable
@@ -250,8 +255,11 @@ class FunctionTranslator:
         if isinstance(node, ast.BinOp):
             if type(node.op) not in BINOPS:
                 raise Unsupported("%s: operator %s" % (self.name, type(node.op).__name__))
-            return self.apply(BINOPS[type(node.op)], [node.left, node.right], scope, assigned)
+            return self.apply(self.binop(node.op), [node.left, node.right], scope, assigned)
         if isinstance(node, ast.Compare):
+            if self.m.numpy and len(node.ops) == 1 and type(node.ops[0]) in CMPOPS and not self._is_type_test(node):
+                # value context in a NumPy module: elementwise when an operand is an array
+                return self.apply("npCmp %s" % CMPOPS[type(node.ops[0])], [node.left, node.comparators[0]], scope, assigned)
             return False, "(bnd %s fun c => .ok (.bool c))" % self.cond(node, scope, assigned)
         if isinstance(node, ast.IfExp):
             c = self.cond(node.test, scope, assigned)
@@ -284,10 +292,23 @@ class FunctionTranslator:
                 lo = sl.lower if sl.lower is not None else ast.Constant(value=None)
                 hi = sl.upper if sl.upper is not None else ast.Constant(value=None)
                 return self.apply("pySliceV", [node.value, lo, hi], scope, assigned)
+            if isinstance(sl, ast.Tuple):
+                if len(sl.elts) != 2 or any(isinstance(x, ast.Slice) for x in sl.elts):
+                    raise Unsupported("%s: multi-dimensional subscript shape" % self.name)
+                return self.apply("npIndex2", [node.value, sl.elts[0], sl.elts[1]], scope, assigned)
             return self.apply("pyIndex", [node.value, sl], scope, assigned)
         if isinstance(node, ast.Call):
             return self.call(node, scope, assigned)
         raise Unsupported("%s: expression %s" % (self.name, type(node).__name__))
+
+    def binop(self, op):
+        if self.m.numpy and type(op) in NP_BINOPS:
+            return NP_BINOPS[type(op)]
+        return BINOPS[type(op)]
+
+    @staticmethod
+    def _is_type_test(node):
+        return (isinstance(node.left, ast.Call) and isinstance(node.left.func, ast.Name) and node.left.func.id == "type")
 
     def rv(self, node, scope, assigned):
         pure, t = self.expr(node, scope, assigned)
@@ -337,7 +358,7 @@ class FunctionTranslator:
             pure, t = self.expr(node.value, scope, assigned)
             if not pure:
                 raise Unsupported("%s: bound method of an impure expression" % self.name)
-            return "(fun x => pyStrIndex %s x)" % t
+            return "(fun x => pyIndexOf %s x)" % t
         raise Unsupported("%s: callable passed to map" % self.name)
 
     def call(self, node, scope, assigned):
@@ -350,6 +371,8 @@ class FunctionTranslator:
                 callee = self.m.functions[nm]
                 args = self.m.bind_args(callee, node, self.name)
                 return self.apply("%s fuel" % nm, args, scope, assigned)
+            if nm in self.m.numpy:
+                return self.numpy_call(self.m.numpy[nm], node, scope, assigned)
             if node.keywords:
                 raise Unsupported("%s: keyword arguments to builtin %s" % (self.name, nm))
             a = node.args
@@ -361,17 +384,48 @@ class FunctionTranslator:
                 return self.apply("pyRange%d" % len(a), a, scope, assigned)
             if nm == "map" and len(a) == 2:
                 return self.apply("pyMap %s" % self.callable_as_lambda(a[0], scope, assigned), [a[1]], scope, assigned)
-            if nm == "Monitor" and not a:
+            if nm in self.m.monitor_classes and not a:
                 return True, ".none"
             raise Unsupported("%s: call of %s/%d" % (self.name, nm, len(a)))
         if isinstance(f, ast.Attribute):
             if node.keywords:
                 raise Unsupported("%s: keyword arguments to a method" % self.name)
-            meth = {"zfill": ("pyZfill", 1), "join": ("pyJoin", 1), "index": ("pyStrIndex", 1)}
+            meth = {"zfill": ("pyZfill", 1), "join": ("pyJoin", 1), "index": ("pyIndexOf", 1)}
             if f.attr in meth and len(node.args) == meth[f.attr][1]:
                 return self.apply(meth[f.attr][0], [f.value] + node.args, scope, assigned)
             raise Unsupported("%s: method %s" % (self.name, f.attr))
         raise Unsupported("%s: call shape" % self.name)
+
+    def numpy_call(self, real, node, scope, assigned):
+        """a call of a name imported from NumPy (`real` is the NumPy name it is bound to)."""
+        kws = {k.arg: k.value for k in node.keywords}
+        a = list(node.args)
+
+        def dtype_int_only():
+            d = kws.pop("dtype", None)
+            if d is not None and not (isinstance(d, ast.Name) and d.id == "int"):
+                raise Unsupported("%s: dtype other than int" % self.name)
+        if real == "where":
+            if len(a) == 1 and not kws:
+                return self.apply("npWhere", a, scope, assigned)
+        elif real == "argsort":
+            if len(a) == 1 and not kws:
+                return self.apply("npArgsort", a, scope, assigned)
+        elif real == "sum":
+            if len(a) == 1 and not kws:
+                return self.apply("npSum", a, scope, assigned)
+        elif real == "array":
+            dtype_int_only()
+            if len(a) == 1 and not kws:
+                return self.apply("npArray", a, scope, assigned)
+        elif real == "zeros":
+            dtype_int_only()
+            shape = kws.pop("shape", None)
+            if shape is not None and not a:
+                a = [shape]
+            if len(a) == 1 and not kws:
+                return self.apply("npZeros", a, scope, assigned)
+        raise Unsupported("%s: NumPy call %s" % (self.name, real))
 
     # conditions: term : R Bool
     def cond(self, node, scope, assigned):
@@ -401,6 +455,22 @@ class FunctionTranslator:
                     return "(.ok (pyTypeIs %s %s))" % (t, lean_str(node.comparators[0].id))
                 v = self.tmp()
                 return "(bnd %s fun %s => .ok (pyTypeIs %s %s))" % (t, v, v, lean_str(node.comparators[0].id))
+            # x is None / x is not None / x in c / x not in c
+            if len(node.ops) == 1 and isinstance(node.ops[0], (ast.Is, ast.IsNot)):
+                other = node.comparators[0]
+                if not (isinstance(other, ast.Constant) and other.value is None):
+                    raise Unsupported("%s: identity test against something else than None" % self.name)
+                pure, t = self.expr(node.left, scope, assigned)
+                neg = "!" if isinstance(node.ops[0], ast.IsNot) else ""
+                if pure:
+                    return "(.ok (%spyIsNone %s))" % (neg, t)
+                v = self.tmp()
+                return "(bnd %s fun %s => .ok (%spyIsNone %s))" % (t, v, neg, v)
+            if len(node.ops) == 1 and isinstance(node.ops[0], (ast.In, ast.NotIn)):
+                _, t = self.apply("pyIn", [node.left, node.comparators[0]], scope, assigned)
+                if isinstance(node.ops[0], ast.NotIn):
+                    return "(bnd %s fun c => .ok (!c))" % t
+                return t
             # general (possibly chained) comparison: every operand evaluated once, left to right,
             # short-circuiting like Python
             operands = [node.left] + list(node.comparators)
@@ -438,12 +508,6 @@ class FunctionTranslator:
     def assign_names(self, pairs):
         return "{ e with %s }" % ", ".join("%s := %s" % (fld(n), v) for n, v in pairs)
 
-    def target_names(self, t):
-        if isinstance(t, ast.Name):
-            return [t.id]
-        if isinstance(t, ast.Tuple) and all(isinstance(x, ast.Name) for x in t.elts):
-            return [x.id for x in t.elts]
-        raise Unsupported("%s: assignment target" % self.name)
 
     def store(self, target, value_term, assigned, rest_fn):
         """value_term : PV (a Lean variable or pure term). Returns the term that stores it and continues."""
@@ -456,6 +520,16 @@ class FunctionTranslator:
             new = assigned | {x.id for x in target.elts}
             pairs = [(x.id, "(%s.getD %d .none)" % (items, i)) for i, x in enumerate(target.elts)]
             return "bnd (pyUnpack %d %s) fun %s =>\nlet e : Env := %s\n%s" % (n, value_term, items, self.assign_names(pairs), rest_fn(new))
+        if isinstance(target, ast.Tuple):
+            # nested targets, e.g. `for i, (a, b) in enumerate(...)`: unpack level by level
+            n = len(target.elts)
+            items = self.tmp()
+
+            def chain(i, asg):
+                if i == n:
+                    return rest_fn(asg)
+                return self.store(target.elts[i], "(%s.getD %d .none)" % (items, i), asg, lambda a2: chain(i + 1, a2))
+            return "bnd (pyUnpack %d %s) fun %s =>\n%s" % (n, value_term, items, chain(0, assigned))
         if isinstance(target, ast.Subscript) and isinstance(target.value, ast.Name):
             if isinstance(target.slice, ast.Slice):
                 raise Unsupported("%s: slice assignment" % self.name)
@@ -552,7 +626,7 @@ class FunctionTranslator:
             if type(st.op) not in BINOPS:
                 raise Unsupported("%s: augmented operator" % self.name)
             load = ast.copy_location(ast.fix_missing_locations(_as_load(st.target)), st.target)
-            _, t = self.apply(BINOPS[type(st.op)], [load, st.value], {}, assigned)
+            _, t = self.apply(self.binop(st.op), [load, st.value], {}, assigned)
             v = self.tmp()
             body = "bnd %s fun %s =>\n%s" % (t, v, self.store(st.target, v, assigned, rest_fn))
             return body, result_assigned["a"]
@@ -682,25 +756,56 @@ def _assigned_before_first_break(stmts):
 
 
 class ModuleTranslator:
-    def __init__(self, source, wanted=None):
+    def __init__(self, source, wanted=None, imported=None):
+        """`imported`: {module name: ModuleTranslator already translated} for `from dsw.<module> import f` calls."""
         self.tree = ast.parse(source)
-        self.functions = {}
-        self.order = []
+        self.functions = {}          # callable names -> FunctionDef (own functions and imported translated ones)
+        self.order = []              # own translated functions, in source order
+        self.skipped_functions = {}  # own functions outside the fragment -> reason
         self.wanted = wanted
         self.monitor_classes = {n.name for n in self.tree.body if isinstance(n, ast.ClassDef)}
+        self.numpy = {}              # local name -> NumPy name
+        self.lean_imports = []
+        imported = imported or {}
+        for node in self.tree.body:
+            if isinstance(node, ast.ImportFrom) and node.module == "numpy":
+                for al in node.names:
+                    self.numpy[al.asname or al.name] = al.name
+            elif isinstance(node, ast.ImportFrom) and node.module and node.module.startswith("dsw."):
+                mod = node.module.split(".", 1)[1]
+                other = imported.get(mod)
+                for al in node.names:
+                    nm = al.asname or al.name
+                    if other is not None and al.name in other.order and al.asname is None:
+                        self.functions[nm] = other.functions[al.name]
+                        if other.lean_module not in self.lean_imports:
+                            self.lean_imports.append(other.lean_module)
+                    elif other is not None and al.name in other.monitor_classes:
+                        self.monitor_classes.add(nm)
+                    # anything else stays unknown: a call of it makes the calling function untranslatable
 
     def is_monitor_local(self, fn, name):
         """the local is only ever assigned from a call of a class of this module (the progress monitor)."""
         ok = False
+
+        def is_monitor_ctor(v):
+            return isinstance(v, ast.Call) and isinstance(v.func, ast.Name) and v.func.id in self.monitor_classes and not v.args
         for node in ast.walk(fn):
             if isinstance(node, ast.Assign):
                 for t in node.targets:
                     if isinstance(t, ast.Name) and t.id == name:
-                        v = node.value
-                        if isinstance(v, ast.Call) and isinstance(v.func, ast.Name) and v.func.id in self.monitor_classes and not v.args:
+                        if is_monitor_ctor(node.value):
                             ok = True
                         else:
                             return False
+                    elif isinstance(t, ast.Tuple):
+                        for i, el in enumerate(t.elts):
+                            if isinstance(el, ast.Name) and el.id == name:
+                                if isinstance(node.value, ast.Tuple) and len(node.value.elts) == len(t.elts) and \
+                                        is_monitor_ctor(node.value.elts[i]):
+                                    ok = True
+                                else:
+                                    return False
         return ok
 
     def bind_args(self, callee, call, caller):
@@ -729,33 +834,63 @@ class ModuleTranslator:
                 slots[i] = d
         return slots
 
+    def _dependency_order(self):
+        """module functions, callees before callers (Python resolves names at call time, Lean needs the
+        definition first); members of a call cycle keep source order and fail later as `call of …`."""
+        defs = [n for n in self.tree.body if isinstance(n, ast.FunctionDef)]
+        names = {d.name for d in defs}
+        calls = {d.name: sorted({c.func.id for c in ast.walk(d) if isinstance(c, ast.Call) and isinstance(c.func, ast.Name)
+                                 and c.func.id in names and c.func.id != d.name}) for d in defs}
+        by_name = {d.name: d for d in defs}
+        order, state = [], {}
+
+        def visit(n):
+            if state.get(n) == 2:
+                return
+            if state.get(n) == 1:
+                return                      # cycle
+            state[n] = 1
+            for c in calls[n]:
+                visit(c)
+            state[n] = 2
+            order.append(by_name[n])
+        for d in defs:
+            visit(d.name)
+        return order
+
     def translate(self):
         chunks = []
-        skipped = []
-        for node in self.tree.body:
+        skipped = [n.name for n in self.tree.body if isinstance(n, ast.ClassDef)]
+        for node in self._dependency_order():
             if isinstance(node, ast.FunctionDef):
                 if self.wanted and node.name not in self.wanted:
                     continue
-                if node.decorator_list:
-                    raise Unsupported("%s: decorators" % node.name)
-                ft = FunctionTranslator(self, node)
-                text = ft.translate()
+                try:
+                    if node.decorator_list:
+                        raise Unsupported("%s: decorators" % node.name)
+                    ft = FunctionTranslator(self, node)
+                    text = ft.translate()
+                except Unsupported as ex:
+                    # outside the fragment: this function (and every function calling it) is left to the
+                    # correspondence alone
+                    self.skipped_functions[node.name] = str(ex)
+                    self.functions.pop(node.name, None)
+                    continue
                 # the name becomes callable by later functions only after it has been translated
                 self.functions[node.name] = node
                 self.order.append(node.name)
                 chunks.append("/-! ### `%s` (source line %d) -/\n\n%s" % (node.name, node.lineno, text))
-            elif isinstance(node, ast.ClassDef):
-                skipped.append(node.name)
         return chunks, skipped
 
 
 HEADER = """import DswModel.Py.Value
-/-!
+%s/-!
 # GENERATED by harness/py2lean.py from `dsw/%s` — do not edit.
 
-One definition per Python function (`<name> fuel args…`), one per loop body / loop condition.
+One definition per Python function (`<name> fuel args…`), one per loop body / loop condition / continuation.
 Regenerated on every run of the checks; the committed copy is what `lake build` compiled.
 Classes skipped (not translated, see DESIGN.md §11): %s.
+Functions outside the translator's fragment (left to the correspondence alone): %s.
 -/
 set_option linter.unusedVariables false
 namespace Dsw.Gen
@@ -777,20 +912,52 @@ def dispatcher(mt, modname):
     return "\n".join(lines)
 
 
-def translate_source(source, basename, wanted=None):
-    mt = ModuleTranslator(source, wanted)
+def lean_module_name(basename):
+    modname = basename[:-3] if basename.endswith(".py") else basename
+    return "DswModel.Gen." + modname[0].upper() + modname[1:]
+
+
+def translate_module(source, basename, wanted=None, imported=None):
+    """returns (Lean text, ModuleTranslator)."""
+    mt = ModuleTranslator(source, wanted, imported)
+    mt.lean_module = lean_module_name(basename)
     chunks, skipped = mt.translate()
     modname = basename[:-3] if basename.endswith(".py") else basename
-    return (HEADER % (basename, ", ".join(skipped) or "none") + "\n\n".join(chunks) + "\n\n" +
-            dispatcher(mt, modname) + "\n\nend Dsw.Gen\n"), mt.order
+    imports = "".join("import %s\n" % m for m in mt.lean_imports)
+    notes = "; ".join("%s (%s)" % (k, v) for k, v in sorted(mt.skipped_functions.items())) or "none"
+    text = (HEADER % (imports, basename, ", ".join(skipped) or "none", notes) + "\n\n".join(chunks) + "\n\n" +
+            dispatcher(mt, modname) + "\n\nend Dsw.Gen\n")
+    return text, mt
+
+
+def translate_source(source, basename, wanted=None):
+    text, mt = translate_module(source, basename, wanted)
+    return text, mt.order
+
+
+def translate_package(repo, modules=("operation", "spiderweb")):
+    """translate dsw/<m>.py for each m in order; later modules may call translated functions of earlier ones.
+    returns {module: (text, ModuleTranslator)}."""
+    import os
+    done, out = {}, {}
+    for m in modules:
+        src = open(os.path.join(repo, "dsw", m + ".py")).read()
+        text, mt = translate_module(src, m + ".py", imported=done)
+        done[m] = mt
+        out[m] = (text, mt)
+    return out
 
 
 if __name__ == "__main__":
-    path = sys.argv[1]
-    wanted = sys.argv[2:] or None
     import os
+    path = sys.argv[1]
+    base = os.path.basename(path)
     try:
-        text, _ = translate_source(open(path).read(), os.path.basename(path), wanted)
+        if base == "operation.py":
+            text, _ = translate_module(open(path).read(), base)
+        else:
+            repo = os.path.dirname(os.path.dirname(os.path.abspath(path)))
+            text = translate_package(repo, ("operation", base[:-3]))[base[:-3]][0]
     except Unsupported as ex:
         sys.stderr.write("unsupported: %s\n" % ex)
         sys.exit(3)
